@@ -30,7 +30,8 @@ def argument_purity(ctx):
     rule = f"R{ctx.prop[1:]}.P"
     ctx.rule(rule, "no function analysed for this property updates one of its arguments in place (directly, through a view "
                    "such as np.asarray / .values / squeeze / reshape / a slice, or on the result of calling an argument); "
-                   "listed out-parameters excepted")
+                   "listed out-parameters excepted; and none keeps state across calls in a module-level object, a class-level "
+                   "attribute or a mutable default argument")
     prog = ctx.prog
     A = Analysis(ctx, max_depth=0)
     fqs = sorted(f for f in ctx.analysed_functions if f in prog.functions)
@@ -51,5 +52,181 @@ def argument_purity(ctx):
             ctx.ob(rule, fq, e.node, False, f"{fq.split(':')[1]} applies an in-place {d} to a value that can be the caller's own "
                    "object: whoever reads the same data next computes from modified values", construct=f"{fq.split(':')[1]} argument purity")
     ctx.floor(rule, "functions scanned for in-place updates of arguments", n, 3)
+    shared_state(ctx, rule)
     ctx.ob(rule, fqs[0] if fqs else "", None, True, f"{n} functions scanned, {bad} with an in-place update of an argument "
            f"({len(OUT_PARAMS)} listed out-parameters)", construct="argument purity scan")
+
+
+# ------------------------------------------------------------------------------------------------ shared mutable state
+# A result that depends on what an earlier call left behind is not a function of the inputs.  Three places where Python keeps
+# such state without an assignment to `self` being visible in the function that reads it: module-level objects, class-level
+# attributes and default-argument objects.  The scan is syntactic with resolved scopes (a name is module-level in a function
+# when it is not bound there, or declared `global`); it runs over the modules / classes / functions the property analysed.
+import ast as _ast
+
+MUTATORS = ("append", "extend", "update", "add", "insert", "pop", "popitem", "clear", "setdefault", "remove", "discard", "sort",
+            "reverse", "fill", "resize", "put", "itemset")
+MUTABLE_CTORS = ("list", "dict", "set", "defaultdict", "OrderedDict", "Counter", "deque", "bytearray")
+MODULE_STATE_OK = {
+    ("fairlearn.postprocessing._plotting", "_debug_colors"): "plot colours only",
+    ("fairlearn.postprocessing._plotting", "_debug_colormap"): "plot colours only",
+}
+
+
+def _is_mutable_expr(d) -> bool:
+    return isinstance(d, (_ast.List, _ast.Dict, _ast.Set, _ast.ListComp, _ast.DictComp, _ast.SetComp)) or (
+        isinstance(d, _ast.Call) and (getattr(d.func, "id", None) in MUTABLE_CTORS or getattr(d.func, "attr", None) in
+                                      MUTABLE_CTORS + ("zeros", "ones", "empty", "full", "array", "DataFrame", "Series")))
+
+
+def _bound_names(fn) -> set:
+    """names bound in the function's own scope (parameters, assignment / loop / with / import / comprehension-free targets)"""
+    out = {a.arg for a in fn.args.args + fn.args.kwonlyargs + fn.args.posonlyargs}
+    if fn.args.vararg:
+        out.add(fn.args.vararg.arg)
+    if fn.args.kwarg:
+        out.add(fn.args.kwarg.arg)
+
+    def walk(n):
+        for ch in _ast.iter_child_nodes(n):
+            if isinstance(ch, (_ast.FunctionDef, _ast.AsyncFunctionDef, _ast.ClassDef)):
+                out.add(ch.name)
+                continue
+            if isinstance(ch, _ast.Lambda):
+                continue
+            if isinstance(ch, _ast.Name) and isinstance(ch.ctx, (_ast.Store, _ast.Del)):
+                out.add(ch.id)
+            elif isinstance(ch, _ast.alias):
+                out.add((ch.asname or ch.name).split(".")[0])
+            elif isinstance(ch, _ast.ExceptHandler) and ch.name:
+                out.add(ch.name)
+            walk(ch)
+    walk(fn)
+    return out
+
+
+def _own_nodes(fn):
+    """nodes of the function body, not descending into nested function / class definitions"""
+    stack = list(fn.body)
+    while stack:
+        n = stack.pop()
+        yield n
+        for ch in _ast.iter_child_nodes(n):
+            if not isinstance(ch, (_ast.FunctionDef, _ast.AsyncFunctionDef, _ast.ClassDef)):
+                stack.append(ch)
+
+
+def _inplace_targets(fn):
+    """(node, base expression, what) for subscript / attribute-free in-place updates and mutator calls in the function"""
+    for n in _own_nodes(fn):
+        if isinstance(n, (_ast.Assign, _ast.AugAssign, _ast.AnnAssign, _ast.Delete)):
+            tgts = n.targets if isinstance(n, (_ast.Assign, _ast.Delete)) else [n.target]
+            for tg in tgts:
+                for t in (tg.elts if isinstance(tg, (_ast.Tuple, _ast.List)) else [tg]):
+                    if isinstance(t, _ast.Subscript):
+                        yield n, t.value, "item assignment"
+                    elif isinstance(n, _ast.AugAssign):
+                        yield n, t, "augmented assignment"
+        elif isinstance(n, _ast.Call) and isinstance(n.func, _ast.Attribute) and n.func.attr in MUTATORS:
+            yield n, n.func.value, f".{n.func.attr}()"
+
+
+def shared_state(ctx, rule):
+    prog = ctx.prog
+    fqs = sorted(f for f in ctx.analysed_functions if f in prog.functions)
+    mods = sorted({f.split(":")[0] for f in fqs})
+    n_mod = n_cls = n_fn = 0
+    # 1. module-level objects updated by a function of the module
+    for mod in mods:
+        mi = prog.modules.get(mod)
+        if mi is None or not hasattr(mi, "tree"):
+            continue
+        n_mod += 1
+        tree = mi.tree
+        mod_names = set()
+        for st in tree.body:
+            if isinstance(st, (_ast.Assign, _ast.AnnAssign)):
+                for tg in (st.targets if isinstance(st, _ast.Assign) else [st.target]):
+                    for t in (tg.elts if isinstance(tg, (_ast.Tuple, _ast.List)) else [tg]):
+                        if isinstance(t, _ast.Name):
+                            mod_names.add(t.id)
+        for fn in _ast.walk(tree):
+            if not isinstance(fn, (_ast.FunctionDef, _ast.AsyncFunctionDef)):
+                continue
+            declared = {nm for g in _own_nodes(fn) if isinstance(g, _ast.Global) for nm in g.names}
+            local = _bound_names(fn) - declared
+            imported = {(a.asname or a.name).split(".")[0] for g in _own_nodes(fn) if isinstance(g, (_ast.Import, _ast.ImportFrom)) for a in g.names}
+            hits = []
+            for n, base, what in _inplace_targets(fn):
+                if isinstance(base, _ast.Name) and base.id in mod_names and base.id not in local:
+                    hits.append((n, base.id, what))
+            for n in _own_nodes(fn):
+                if isinstance(n, _ast.Name) and isinstance(n.ctx, _ast.Store) and n.id in declared and n.id in mod_names and n.id not in imported:
+                    hits.append((n, n.id, "rebinding through `global`"))
+            for n, name, what in hits:
+                if (mod, name) in MODULE_STATE_OK:
+                    continue
+                ctx.ob(rule, _fq_of(prog, mod, fn, tree), n, False, f"{fn.name} updates the module-level object `{name}` ({what}): what a call "
+                       "computes then depends on the calls made before it in the same process", construct=f"module state {name} in {fn.name}")
+    # 2. class-level mutable attributes updated through self / cls, 3. mutable default arguments updated, stored or returned
+    seen_cls = set()
+    for fq in fqs:
+        fi = prog.functions[fq]
+        node = fi.node
+        n_fn += 1
+        params = node.args.args + node.args.kwonlyargs + node.args.posonlyargs
+        defaults = dict(zip([a.arg for a in node.args.args + node.args.posonlyargs][-len(node.args.defaults):] if node.args.defaults else [],
+                            node.args.defaults))
+        defaults.update({a.arg: d for a, d in zip(node.args.kwonlyargs, node.args.kw_defaults) if d is not None})
+        mutable = {nm for nm, d in defaults.items() if _is_mutable_expr(d)}
+        if mutable:
+            rebound = {n.id for n in _own_nodes(node) if isinstance(n, _ast.Name) and isinstance(n.ctx, _ast.Store)}
+            for n, base, what in _inplace_targets(node):
+                if isinstance(base, _ast.Name) and base.id in mutable and base.id not in rebound:
+                    ctx.ob(rule, fq, n, False, f"the mutable default of `{base.id}` is updated in place ({what}): the default object is "
+                           "shared by every call that omits the argument", construct=f"mutable default {base.id} updated")
+            for n in _own_nodes(node):
+                v = None
+                if isinstance(n, _ast.Assign) and any(isinstance(t, _ast.Attribute) for t in n.targets):
+                    v = n.value
+                elif isinstance(n, _ast.Return):
+                    v = n.value
+                if isinstance(v, _ast.Name) and v.id in mutable and v.id not in rebound:
+                    ctx.ob(rule, fq, n, False, f"the mutable default of `{v.id}` is stored on an object or returned: every caller that omits "
+                           "the argument then shares one object", construct=f"mutable default {v.id} escapes")
+        cls = getattr(fi, "cls", None)
+        if cls and cls not in seen_cls and cls in prog.classes:
+            seen_cls.add(cls)
+            n_cls += 1
+            cnode = prog.classes[cls].node
+            cattrs = {}
+            for st in cnode.body:
+                if isinstance(st, (_ast.Assign, _ast.AnnAssign)) and st.value is not None and _is_mutable_expr(st.value):
+                    for tg in (st.targets if isinstance(st, _ast.Assign) else [st.target]):
+                        if isinstance(tg, _ast.Name):
+                            cattrs[tg.id] = st
+            if cattrs:
+                for m in cnode.body:
+                    if not isinstance(m, (_ast.FunctionDef, _ast.AsyncFunctionDef)):
+                        continue
+                    inst = {t.attr for n in _own_nodes(m) if isinstance(n, (_ast.Assign, _ast.AnnAssign))
+                            for t in (n.targets if isinstance(n, _ast.Assign) else [n.target])
+                            if isinstance(t, _ast.Attribute) and isinstance(t.value, _ast.Name) and t.value.id == "self"}
+                    for n, base, what in _inplace_targets(m):
+                        if isinstance(base, _ast.Attribute) and isinstance(base.value, _ast.Name) and base.attr in cattrs and \
+                                base.attr not in inst:
+                            ctx.ob(rule, f"{cls}.{m.name}", n, False, f"{m.name} updates the class-level attribute `{base.attr}` in place "
+                                   f"({what}): all instances share it", construct=f"class attribute {base.attr} updated in {m.name}")
+    ctx.ob(rule, fqs[0] if fqs else "", None, True, f"shared mutable state: {n_mod} modules, {n_cls} classes, {n_fn} functions scanned "
+           "(module-level objects, class-level attributes, default arguments)", construct="shared state scan")
+
+
+def _fq_of(prog, mod, fn, tree):
+    for fq, fi in prog.functions.items():
+        if fi.node is fn:
+            return fq
+    # a function the program model does not index (nested): report against the first indexed function of the module
+    for fq in prog.functions:
+        if fq.startswith(mod + ":"):
+            return fq
+    return mod + ":" + fn.name
